@@ -741,6 +741,8 @@ type c16LeaderCase struct {
 	Leaders   []int    `json:"leaderAfterEachStep"` // index of the leading server, -1 = none
 	Orders    []string `json:"orderOfTheTwoUpdates"`
 	Step      int      `json:"failedStep"`
+	// the client starts with the leader's endpoint alone and is told the others through UpdateEndpoints
+	LateEndpoints bool `json:"endpointsLearntAfterConnecting,omitempty"`
 }
 
 // leaderServer is one cluster member: its own copy of the database plus the _Server
@@ -816,8 +818,14 @@ func TestC16Leader(t *testing.T) {
 		order := rapid.Permutation([]int{0, 1, 2}[:n]).Draw(t, "endpoints")
 		kase.Endpoints = order
 		var opts []client.Option
+		// half of the clients that start at the leader learn about the other members only once
+		// they are attached (UpdateEndpoints with the endpoint in use first and the others after it)
+		late := order[0] == leader && rapid.Bool().Draw(t, "lateendpoints")
+		kase.LateEndpoints = late
 		for _, i := range order[1:] {
-			opts = append(opts, client.WithEndpoint(servers[i].srv.Endpoint()))
+			if !late {
+				opts = append(opts, client.WithEndpoint(servers[i].srv.Endpoint()))
+			}
 		}
 		opts = append(opts, client.WithLeaderOnly(true), client.WithReconnect(2*time.Second, backoff.NewConstantBackOff(3*time.Millisecond)))
 		c, err := kit.NewClient(w, servers[order[0]].srv.Endpoint(), opts...)
@@ -894,6 +902,15 @@ func TestC16Leader(t *testing.T) {
 			}
 		}
 		settle(0, leader)
+		if late {
+			var eps []string
+			for _, i := range order {
+				eps = append(eps, servers[i].srv.Endpoint())
+			}
+			c.UpdateEndpoints(eps)
+			kit.Label("C16", "leader:endpoints-learnt-after-connecting")
+			settle(0, leader)
+		}
 		for step, steps := 1, rapid.IntRange(1, 3).Draw(t, "steps"); step <= steps; step++ {
 			cands := []int{-1}
 			for i := 0; i < n; i++ {
